@@ -275,6 +275,33 @@ class FnView:
                     if int(c["scalar"]) == 18446744073709551615:
                         return ("const", "core::num::MAX")    # a named sentinel `const NONE: u64 = u64::MAX`
                     return ("lit", int(c["scalar"]))
+                # a named literal (`const MSG: &str = "..."`, `const DEFAULT_MEMORY_GB: f64 = 6.0`) is its value
+                cf = self.prog.fn(p) if hasattr(self.prog, "fn") else None
+                cb = cf.get("body") if isinstance(cf, dict) else None
+                while isinstance(cb, dict) and cb.get("k") == "block" and not cb.get("stmts") and cb.get("expr") is not None:
+                    cb = cb["expr"]
+                if isinstance(cb, dict) and cb.get("k") == "lit" and cb.get("lk") in ("str", "float", "bool", "char", "int") \
+                        and (cf.get("dk") or "").startswith(("Const", "AssocConst")):
+                    lt_ = lit_term(cb)
+                    if lt_ == ("lit", 18446744073709551615):
+                        return ("const", "core::num::MAX")
+                    return lt_
+                # a small named constant expression (`const FASTQ_SUFFIXES: [&str; 2] = [".fq", ".fastq"]`, a range,
+                # a product of literals) is its value; big tables stay symbolic (`bytes` facts are read by the rules)
+                if isinstance(cb, dict) and (cf.get("dk") or "").startswith(("Const", "AssocConst")) \
+                        and (c is None or c.get("bytes") is None) and depth < 6:
+                    cache = self.prog.__dict__.setdefault("_const_terms", {})
+                    if p not in cache:
+                        cache[p] = None
+                        try:
+                            ct_ = FnView(self.prog, cf).term(cb)
+                            if sum(1 for _ in subterms(ct_)) <= 40 and not contains(
+                                    ct_, lambda s_: s_[0] in ("local", "param", "self", "closure", "if", "match")):
+                                cache[p] = ct_
+                        except Exception:
+                            cache[p] = None
+                    if cache[p] is not None:
+                        return cache[p]
                 return ("const", p)
             if dk.startswith("Ctor"):
                 return ("ctor", p)
@@ -347,6 +374,20 @@ class FnView:
             args = [T(a) for a in call_args(n)]
             if name in TRANSPARENT and len(args) >= 1:
                 return args[0]
+            if name.split("::")[-1] in ("any", "all") and name.startswith(("core::iter::", "std::iter::")) and len(args) == 2 \
+                    and args[1][0] == "closure":
+                # `[a, b, c].iter().any(|x| p(x))`  ==  `p(a) || p(b) || p(c)` for a small literal table
+                src = args[0]
+                while src[0] == "call" and len(src) == 3 and src[1].split("::")[-1] in ("iter", "into_iter", "copied", "cloned"):
+                    src = src[2]
+                if src[0] == "array" and 1 <= len(src) - 1 <= 8 and all(e_[0] == "lit" for e_ in src[1:]):
+                    body = args[1][1]
+                    op = "||" if name.split("::")[-1] == "any" else "&&"
+                    parts = [subst(body, {("cparam", 0): e_}) for e_ in src[1:]]
+                    acc = parts[0]
+                    for p_ in parts[1:]:
+                        acc = ("bin", op, acc, p_)
+                    return acc
             if name in NONZERO_GET and len(args) == 1 and args[0][0] == "variant" and args[0][1] == "Some" \
                     and args[0][3][0] == "call" and args[0][3][1] in NONZERO_NEW:
                 return args[0][3][2]                             # NonZero::new(x).unwrap().get() == x
@@ -962,10 +1003,19 @@ def decode_arguments(fv, n, depth=0):
             if prec is not None:
                 p = ("arg", slots[prec][1]) if (b & 32 and prec < len(slots)) else ("lit", prec)
             kind, val = slots[idx] if idx < len(slots) else ("?", ("none",))
-            pieces.append(("arg", len(args), kind, p, w, flags))
-            args.append(val)
+            if kind == "display" and p is None and w is None and not flags and val[0] == "lit" and isinstance(val[1], str):
+                pieces.append(("lit", val[1]))        # `format!("{}/{}", dir, "kmers.counts")`: a literal argument is template text
+            else:
+                pieces.append(("arg", len(args), kind, p, w, flags))
+                args.append(val)
             idx += 1
-    return ("format", tuple(pieces), tuple(args))
+    merged = []
+    for pc in pieces:
+        if pc[0] == "lit" and merged and merged[-1][0] == "lit":
+            merged[-1] = ("lit", merged[-1][1] + pc[1])
+        else:
+            merged.append(pc)
+    return ("format", tuple(merged), tuple(args))
 
 
 def fmt_template(ft):
